@@ -29,6 +29,7 @@ struct plan
 };
 
 static plan g;
+static std::size_t g_disabled = 1;   // index of the disabled channel in the configuration with user weights
 static std::size_t g_points = 6;     // sampled points per iteration (8 in the thorough tier)
 
 template <typename T>
@@ -96,6 +97,7 @@ struct faulty_map
             if (it != g.poison.end())
             {
                 if (it->second == 3) { for (auto& d : dens) d = T(); }
+                else if (it->second == 4) { dens[g_disabled] = std::numeric_limits<T>::quiet_NaN(); }   // only a disabled channel's density
                 else j = bad_value<T>(it->second);
             }
         }
@@ -146,7 +148,8 @@ static run_out run(int kind, bool dist)
         faulty_map<T> map;
         map.inner.split = {T(0.25), T(0.5), T(0.75)};
         map.inner.dims = 1;
-        auto chk = hep::make_multi_channel_chkpt<T, vf::script_engine>(T(0.01L), T(0.5), gen);
+        auto chk = kind == 3 ? hep::make_multi_channel_chkpt<T, vf::script_engine>(std::vector<T>{T(1), T(0), T(2)}, T(0.01L), T(0.5), gen)
+                             : hep::make_multi_channel_chkpt<T, vf::script_engine>(T(0.01L), T(0.5), gen);
         chk = dist ? hep::multi_channel(hep::make_multi_channel_integrand<T>(fn<T>(), 1, map, 1, 3, dparams, dparams2), calls, chk, vf::never_stop())
                    : hep::multi_channel(hep::make_multi_channel_integrand<T>(fn<T>(), 1, map, 1, 3), calls, chk, vf::never_stop());
         finish(chk);
@@ -158,13 +161,14 @@ template <typename T>
 static void enumerate(report& r)
 {
     std::string const tn = vf::type_name<T>();
-    for (int kind = 0; kind != 3; ++kind)
+    for (int kind = 0; kind != 4; ++kind)      // 3: multi-channel with user weights, one channel disabled
     for (int src = 0; src != 3; ++src)
     for (int dist = 0; dist != 2; ++dist)
     {
         if (src == src_dist_value && !dist) continue;
-        if (src == src_weight && kind != 2) continue;
-        int const nkinds = src == src_weight ? 4 : 3;
+        if (src == src_weight && kind < 2) continue;
+        if (kind == 3 && src != src_weight) continue;
+        int const nkinds = src == src_weight ? (kind == 3 ? 5 : 4) : 3;
         std::string const base = tn + " integrator=" + std::to_string(kind) + " src=" + std::to_string(src) + " dist=" + std::to_string(dist);
         if (!r.want_prefix(base.substr(0, std::min(base.size(), r.a().replay_case.size())))) continue;
         for (sz iter = 0; iter != 3; ++iter)
